@@ -59,8 +59,8 @@ def plan(tier, ctx):
 
     # ---- first arrival (tmp_in_size == 0: invariant, see assumptions)
     if quick:
-        rils = [0, 1, 7, 8, 9, 15, 16, 31, 32, 33, 56, 63, 64]
-        avs = [0, 3, 4, 7, 8, 9]
+        rils = [0, 1, 7, 8, 9, 16, 31, 32, 56, 63, 64]
+        avs = [0, 3, 4, 7, 8]
     else:
         rils = list(range(0, 65))
         avs = list(range(0, 11))
@@ -68,7 +68,7 @@ def plan(tier, ctx):
         for ril in rils:
             for av in avs:
                 add("trl_done", mode, ril, 0, av,
-                    core=((ril, av) in ((0, 8), (0, 4), (19, 3), (64, 0), (32, 0), (16, 6))))
+                    core=((ril, av) in ((0, 8), (0, 4), (9, 3), (64, 0), (32, 0), (16, 7))))
     for mode in (GZ_NV, Z_NV):
         t = tlen(mode)
         for ril in ([0, 8, 8 * t - 1, 8 * t, 64] if quick else [0, 3, 8, 9, 8 * t - 8, 8 * t - 1, 8 * t, 8 * t + 1, 63, 64]):
@@ -135,7 +135,7 @@ def plan(tier, ctx):
                            "write_trailer", "bitbuf2.h set_buf/write_bits/flush_bits/flush/is_full", "unaligned.h stores/loads"],
         bounds={
             "verifier": "read_in (64 bits), saved bytes, input bytes, crc, total_out symbolic; sizes concrete: first arrival "
-                        "read_in_length 0..64 x avail_in 0..10 with tmp_in_size 0 [quick: 13 x 6]; re-entry read_in_length "
+                        "read_in_length 0..64 x avail_in 0..10 with tmp_in_size 0 [quick: 11 x 5]; re-entry read_in_length "
                         "{0,3,7} x tmp_in_size 0..T-1 x avail_in 0..10 [quick: boundary subset]; crc_flag GZIP, ZLIB in full, "
                         "*_NO_HDR_VER on boundary sizes, DEFLATE/GZIP_NO_HDR/ZLIB_NO_HDR: no verification, 6 sizes each",
             "two_call": "first call short by 1..T bytes, second call delivers 0..missing+1 bytes",
